@@ -126,6 +126,12 @@ func UntarDirectory(r io.Reader, destDir string) error {
 			return err
 		}
 
+		// Never write through a symbolic link below the destination: an earlier
+		// entry may have created one whose real target differs from its lexical one.
+		if err := checkNoSymlinkInPath(destDir, targetPath, false); err != nil {
+			return err
+		}
+
 		switch header.Typeflag {
 		case tar.TypeDir:
 			// Create directory
@@ -137,6 +143,11 @@ func UntarDirectory(r io.Reader, destDir string) error {
 			// Create parent directories if needed
 			if err := os.MkdirAll(filepath.Dir(targetPath), 0755); err != nil {
 				return fmt.Errorf("failed to create parent directory: %w", err)
+			}
+
+			// Replace an existing symlink instead of writing through it
+			if info, err := os.Lstat(targetPath); err == nil && info.Mode()&os.ModeSymlink != 0 {
+				os.Remove(targetPath)
 			}
 
 			// Create file
@@ -175,6 +186,9 @@ func UntarDirectory(r io.Reader, destDir string) error {
 			// Hard links - validate target is within destDir
 			linkTarget, err := sanitizeTarPath(destDir, header.Linkname)
 			if err != nil {
+				return err
+			}
+			if err := checkNoSymlinkInPath(destDir, linkTarget, true); err != nil {
 				return err
 			}
 
@@ -234,6 +248,35 @@ func sanitizeTarPath(destDir, name string) (string, error) {
 	}
 
 	return targetPath, nil
+}
+
+// checkNoSymlinkInPath verifies that no existing component of path below destDir
+// is a symbolic link. The final component is only checked when includeFinal is set.
+func checkNoSymlinkInPath(destDir, path string, includeFinal bool) error {
+	rel, err := filepath.Rel(destDir, path)
+	if err != nil {
+		return fmt.Errorf("failed to resolve path: %w", err)
+	}
+	if rel == "." {
+		return nil
+	}
+	parts := strings.Split(rel, string(filepath.Separator))
+	if !includeFinal {
+		parts = parts[:len(parts)-1]
+	}
+	cur := destDir
+	for _, part := range parts {
+		cur = filepath.Join(cur, part)
+		info, err := os.Lstat(cur)
+		if err != nil {
+			// Nothing exists below a missing component
+			return nil
+		}
+		if info.Mode()&os.ModeSymlink != 0 {
+			return fmt.Errorf("path passes through a symbolic link: %s", cur)
+		}
+	}
+	return nil
 }
 
 // validateSymlink checks if a symlink target is safe (doesn't escape the destination).
